@@ -18,8 +18,10 @@ import sys
 import time
 
 VERIF_DIR = os.path.dirname(os.path.dirname(os.path.abspath(__file__)))
-REPLAY_DIR = os.path.join(VERIF_DIR, "replays")
-EVIDENCE_DIR = os.path.join(VERIF_DIR, "evidence")
+# (the two overrides exist for the mutant self-test, which must not touch the
+# evidence of the real tree)
+REPLAY_DIR = os.environ.get("XSIM_REPLAY_DIR") or os.path.join(VERIF_DIR, "replays")
+EVIDENCE_DIR = os.environ.get("XSIM_EVIDENCE_DIR") or os.path.join(VERIF_DIR, "evidence")
 KNOWN_FILE = os.path.join(VERIF_DIR, "known_findings.json")
 
 EXIT_OK, EXIT_VIOLATION, EXIT_HARNESS = 0, 1, 2
